@@ -7,7 +7,7 @@ out=${1:-/verif/seeded_pending/detect.log}
 FAST="C02 C03 C04 C05 C06 C07 C08 C09 C11 C12 C13 C14 C15 C20"
 for d in $(ls -d seeded_pending/C*/[0-9] 2>/dev/null); do
   patch=$d/patch.diff; [ -f $d/patch.ported.diff ] && patch=$d/patch.ported.diff
-  own=$(echo $d | sed 's#.*/\(C[0-9][0-9]\)b\?/[0-9]*$#\1#')
+  own=$(echo $d | sed 's#.*/\(C[0-9][0-9]\)[a-z0-9]*/[0-9]*$#\1#')
   props="$FAST"
   case "$own" in C01|C10|C16|C17|C18|C19) props="$own $FAST";; esac
   echo "=== $d own=$own" >> $out
